@@ -519,6 +519,8 @@ class ScrollBar(WidgetDecoration[WrappedWidget]):
         sb_width = maxcol - ow_size[0]
 
         ow = self._original_widget
+        if ow_size[0] <= 0:  # no room left for the wrapped widget
+            return render_no_scrollbar()
         ow_base = self.scrolling_base_widget
 
         # Use hasattr instead of protocol: hasattr will return False in case of getattr raise AttributeError
